@@ -287,6 +287,20 @@ func (s *c16Sec) badTokens() (map[string]string, error) {
 	return out, err
 }
 
+// shortLived: a correctly signed admin token that expires at the returned instant.
+func (s *c16Sec) shortLived(life time.Duration) (string, time.Time, error) {
+	exp := time.Now().Add(life).Truncate(time.Second)
+	c := security.CustomClaims{Roles: []string{"admin"}}
+	c.RegisteredClaims = jwt.RegisteredClaims{
+		ExpiresAt: jwt.NewNumericDate(exp),
+		Issuer:    "node:" + c16Node,
+		Audience:  jwt.ClaimStrings{"node:" + c16Node},
+		Subject:   c16Admin,
+	}
+	tok, err := jwt.NewWithClaims(jwt.SigningMethodRS256, c).SignedString(s.Core.NodeInfo.KeyPairs[0].PrivateKey)
+	return "Bearer " + tok, exp, err
+}
+
 // ---- route table -------------------------------------------------------------------
 
 type c16Route struct {
@@ -640,6 +654,30 @@ func TestVerif_C16(t *testing.T) {
 		}
 	}
 
+	// ---- part 1b: a token that expires BETWEEN two requests. It is presented while still valid
+	// (served), then again after its expiry: that second request must be refused like any expired
+	// token, whatever the hub remembered about the first one. Checked after part 1 (the wait is
+	// spent there); three GET routes per shard.
+	type expiring struct {
+		route c16Route
+		tok   string
+		exp   time.Time
+		ok    bool
+	}
+	var exps []expiring
+	for i, r := range reg {
+		if r.Method != "GET" || c16OpenRoutes[r.key()] || i%shards != shard || len(exps) >= 3 {
+			continue
+		}
+		tok, exp, err := f.sec.shortLived(4 * time.Second)
+		if err != nil {
+			t.Fatalf("VERIF-INFRA cannot build a short-lived token: %v", err)
+		}
+		resp := f.sec.do(r.Method, r.Path, "", "", tok)
+		// under load the token may have expired before the first use: such a case proves nothing
+		exps = append(exps, expiring{r, tok, exp, resp.decision() == "passed" && time.Now().Before(exp)})
+	}
+
 	// ---- part 1: tokens (rules 1, 2) - every route x every token kind -----------------
 	bad, err := f.sec.badTokens()
 	if err != nil {
@@ -695,6 +733,23 @@ func TestVerif_C16(t *testing.T) {
 					c16Fail(t, cs, "valid admin token refused on %s: HTTP %d %s %.300s", r.key(), resp.Code, resp.Panic, resp.Body)
 				}
 			}
+		}
+	}
+	for _, x := range exps {
+		cs := c16Case{Method: x.route.Method, Path: x.route.Path, Token: "expires-between-two-requests"}
+		if !x.ok {
+			kit.S().Inconcl()
+			continue
+		}
+		if d := time.Until(x.exp.Add(1200 * time.Millisecond)); d > 0 {
+			time.Sleep(d)
+		}
+		kit.Journal(cs)
+		resp := f.sec.do(x.route.Method, x.route.Path, "", "", x.tok)
+		cs.Got = resp.Code
+		kit.S().Case(cs, true, "token-request", "token-expires-between-two-requests")
+		if resp.Code != 401 {
+			c16Fail(t, cs, "%s: a token that was served while valid is still served %v after its expiry: HTTP %d %.200s (want 401)", x.route.key(), time.Since(x.exp).Round(time.Millisecond), resp.Code, resp.Body)
 		}
 	}
 
